@@ -106,7 +106,8 @@ PROPS = {
         level="model_checking",
         technique="explicit-state BFS over all interleavings of application steps (the real IoUring methods, via hook H1) and simulated kernel steps, from every start value of the ring counters incl. wrap; invariants on every state; bound to the code's set-up by real-kernel rings for every entry-size flag x size x batch sequence, and by a fat-LTO busy-polling reaper",
         steps=[_s("h-ring", None, name="ring"), _s("h-ring", None, name="ring-nochk", profile="nochk"), _s("h-uring", "ringflags", name="real-rings"),
-               _s("h-uring", "poll", bin="h-uring-poll", profile="ltofat", name="polling-reaper-ltofat")],
+               _s("h-uring", "poll", bin="h-uring-poll", profile="ltofat", name="polling-reaper-ltofat"),
+               _s("h-uring", "spin", bin="h-uring-spin", profile="ltofat-abort", name="straight-line-program-ltofat-abort")],
         assumptions=["kernel side simulated at call granularity (consume 1/all, post 1/all); the index array is the identity as set up by setup_io_uring",
                      "polling-reaper step (fat-LTO build): an application that busy-polls get_next_cqe / get_next_sqe_slot with no system call in the loop must observe an asynchronous completion / freed slot: binds 'the ring words are read with real atomics' to what the optimiser may do (compiler-dependent, this toolchain only)",
                      "real-rings step: rings made by the real setup_io_uring for every entry-size flag combination (with and without SQPOLL), sizes 1..8, every start slot x every sequence of batch lengths, NOP entries against the real kernel: binds the model's set-up assumption (identity index array, entry sizes) to the code",
